@@ -314,6 +314,9 @@ class Executor(object):
                 raise Outside("subscript assignment on %s" % cont.t)
         elif isinstance(tgt, (ast.Tuple, ast.List)):
             n = len(tgt.elts)
+            if isinstance(val.t, TOpt):
+                ev.fork_exc(st, z3.Not(val.t.is_none(cx, val.e)), "TypeError", self.fx.where(node))
+                val = SV(val.t.get(cx, val.e), val.t.inner)
             if isinstance(val.t, TTuple):
                 if len(val.t.items) != n:
                     ev.fork_exc(st, z3.BoolVal(False), "ValueError", self.fx.where(node))
@@ -727,7 +730,7 @@ class Executor(object):
                     rt_ = rt
                 extra = {}
                 if rt_ is not None:
-                    extra["result"] = ev.coerce(val, rt_, "return value")
+                    extra["result"] = ev.coerce(val, rt_, "return value", o.st)
                 elif not isinstance(val.t, TNone):
                     extra["result"] = val
                 for e_src in c.get("ensures", []):
